@@ -12,7 +12,8 @@
 // Oracles (evaluated on the library's own outputs, independent of the Coq model):
 //   free-symbols   free_symbols(e) == binder-aware structural recomputation (Subs, ImageSet,
 //                  ConditionSet bind), no memo set
-//   has-symbol     has_symbol(e, s) == (s in free_symbols(e)) for every Symbol argument
+//   has-symbol     has_symbol(e, s) == (s in free_symbols(e)) for every Symbol argument;
+//                  has_symbol(e, f(..)) == "a node eq to f(..) is reachable through get_args"
 //   occurs-subs    on binder-free trees: s in free_symbols(e) <=> renaming s to a fresh symbol
 //                  changes the printed expression
 //   atoms          atoms<...>(e), function_symbols(e) == naive closure over get_args
@@ -507,6 +508,16 @@ static std::string run_case(const std::string &line, const std::function<void()>
     for (const auto &x : qargs) {
         bool h = has_symbol(*e, *x);
         o << (h ? "1" : "0");
+        if (is_a<FunctionSymbol>(*x)) {
+            // a FunctionSymbol argument: true iff a node reachable through get_args is eq to it
+            bool present = false;
+            for (const auto &q : nodes)
+                if (eq(*q, *x))
+                    present = true;
+            if (h != present)
+                oracle << "\t#ORACLE:has-symbol-function-symbol:has_symbol(e, " << dump39(*x, false) << ") = " << h
+                       << " but a node eq to it is " << (present ? "" : "not ") << "reachable through get_args";
+        }
         if (is_a_sub<Symbol>(*x)) {
             bool infs = set_has(fs, x);
             if (h != infs) {
